@@ -924,10 +924,10 @@ Qed.
 
 Lemma write_data_lay : forall data ms a vars ms' vars',
   write_data data ms a vars = POk (ms', vars') ->
-  exists L e, lay data a = Some (L, e) /\ table_ok vars vars' L.
+  exists L e, lay data a = Some (L, e) /\ table_ok vars vars' L /\ (a <= 4294967296 -> e <= 4294967296).
 Proof.
   induction data as [|[ln l] t IH]; intros ms a vars ms' vars' H; cbn [write_data] in H.
-  - injection H as <- <-. exists [], a. split; [reflexivity|]. split; [|split].
+  - injection H as <- <-. exists [], a. split; [reflexivity|]. split; [|intros Ha; exact Ha]. split; [|split].
     + rewrite app_nil_r; reflexivity.
     + intros k y Hk; exact Hk.
     + intros v [].
@@ -937,29 +937,36 @@ Proof.
       assert (G : forall nbits stride, esize ty = stride ->
         match write_vals ms nbits stride (align4 a) vals ln with
         | PErr e => PErr e
-        | POk (m', a') => write_data t m' a' (vars ++ [(name, (align4 a, stride))])
+        | POk (m', a') => if a' >? data_limit then PErr (PMemSize (data_limit / 4)) else write_data t m' a' (vars ++ [(name, (align4 a, stride))])
         end = POk (ms', vars') ->
-        exists L e, lay ((ln, RVarDecl name ty vals) :: t) a = Some (L, e) /\ table_ok vars vars' L).
+        exists L e, lay ((ln, RVarDecl name ty vals) :: t) a = Some (L, e) /\ table_ok vars vars' L /\
+                    (a <= 4294967296 -> e <= 4294967296)).
       2: { unfold esize in G. destruct (ty =? 0); [|destruct (ty =? 1)]; eapply G; try exact H; reflexivity. }
       intros nbits stride Hs Hw.
       destruct (write_vals ms nbits stride (align4 a) vals ln) as [[m1 a1]|] eqn:Ew; [|discriminate].
+      destruct (a1 >? data_limit) eqn:Elim; [discriminate|]. unfold data_limit in Elim.
       destruct (write_vals_ok _ _ _ _ _ _ _ _ Ew) as (zs & Hz & Ha1). cbn [lay decl_image]. rewrite Hz.
-      destruct (IH _ _ _ _ _ Hw) as (L & e & HL & Hv). subst a1. rewrite Hs, HL.
-      eexists _, e. split; [reflexivity|]. apply table_ok_step; [exact Edup | exact Hv].
+      destruct (IH _ _ _ _ _ Hw) as (L & e & HL & Hv & He). subst a1. rewrite Hs, HL.
+      eexists _, e. split; [reflexivity|]. split; [apply table_ok_step; [exact Edup | exact Hv]|].
+      intros _. apply He. lia.
     + (* string *)
       destruct (var_lookup vars name) eqn:Edup; [discriminate H|].
       destruct (write_chars ms (align4 a) (strip_quotes s)) as [[m1 a1]|] eqn:Ew; [|discriminate].
       destruct (dwrite m1 8 a1 0) as [m2|]; [|discriminate].
+      destruct (a1 + 1 >? data_limit) eqn:Elim; [discriminate|]. unfold data_limit in Elim.
       apply write_chars_ok in Ew. subst a1.
-      destruct (IH _ _ _ _ _ H) as (L & e & HL & Hv). cbn [lay decl_image].
+      destruct (IH _ _ _ _ _ H) as (L & e & HL & Hv & He). cbn [lay decl_image].
       replace (align4 a + (Z.of_nat (length (strip_quotes s)) + 1))
         with (align4 a + Z.of_nat (length (strip_quotes s)) + 1) by lia.
-      rewrite HL. eexists _, e. split; [reflexivity|]. apply table_ok_step; [exact Edup | exact Hv].
+      rewrite HL. eexists _, e. split; [reflexivity|]. split; [apply table_ok_step; [exact Edup | exact Hv]|].
+      intros _. apply He. lia.
     + (* .zero *)
       destruct (var_lookup vars name) eqn:Edup; [discriminate H|].
       cbn [lay decl_image]. destruct (py_int10 v) as [n|]; [|discriminate].
-      destruct (IH _ _ _ _ _ H) as (L & e & HL & Hv). rewrite HL.
-      eexists _, e. split; [reflexivity|]. apply table_ok_step; [exact Edup | exact Hv].
+      destruct (align4 a + 4 * n >? data_limit) eqn:Elim; [discriminate|]. unfold data_limit in Elim.
+      destruct (IH _ _ _ _ _ H) as (L & e & HL & Hv & He). rewrite HL.
+      eexists _, e. split; [reflexivity|]. split; [apply table_ok_step; [exact Edup | exact Hv]|].
+      intros _. apply He. lia.
 Qed.
 
 (** ** structure of the layout *)
@@ -1075,7 +1082,7 @@ Proof.
       assert (G : forall k nbits stride, nbits = 8 * Z.of_nat k -> stride = Z.of_nat k -> esize ty = stride ->
         match write_vals (MFlat m) nbits stride (align4 a) vals ln with
         | PErr e => PErr e
-        | POk (m', a') => write_data t m' a' (vars ++ [(nm, (align4 a, stride))])
+        | POk (m', a') => if a' >? data_limit then PErr (PMemSize (data_limit / 4)) else write_data t m' a' (vars ++ [(nm, (align4 a, stride))])
         end = POk (ms', vars') ->
         exists m', ms' = MFlat m' /\
           forall x, mget m' x = overlay ({| vl_name := name; vl_start := align4 a; vl_esize := sz;
@@ -1087,6 +1094,7 @@ Proof.
       intros k nbits stride -> -> Hs Hw. rewrite Hs in Ed. rewrite Nat2Z.id in Ed.
       injection Ed as <- <- <- <-.
       rewrite (write_vals_flat k ln vals m (align4 a) zs Elit) in Hw by lia.
+      destruct (_ >? data_limit) in Hw; [discriminate Hw|].
       destruct (IH _ _ _ _ _ _ _ Hw El (zero_ok_tail _ _ Hz)) as (m' & -> & Hm'); [lia | lia |].
       exists m'. split; [reflexivity|]. intros x. rewrite Hm'. cbn [overlay vl_start vl_bytes].
       apply image_after_put. exact Hafter.
@@ -1096,6 +1104,7 @@ Proof.
       rewrite write_chars_flat in H by lia.
       change (dwrite (MFlat ?mm) 8 ?aa 0) with (dwrite (MFlat mm) (8 * Z.of_nat 1) aa 0) in H.
       rewrite dwrite_flat_ok in H by lia.
+      destruct (_ >? data_limit) in H; [discriminate H|].
       replace (align4 a + (Z.of_nat (length (strip_quotes s)) + 1))
         with (align4 a + Z.of_nat (length (strip_quotes s)) + 1) in El by lia.
       destruct (IH _ _ _ _ _ _ _ H El (zero_ok_tail _ _ Hz)) as (m' & -> & Hm'); [lia | lia |].
@@ -1107,6 +1116,7 @@ Proof.
     + (* .zero *)
       destruct (var_lookup vars nm); [discriminate H|].
       destruct (py_int10 w) as [n|]; [|discriminate]. injection Ed as <- <- <- <-.
+      destruct (_ >? data_limit) in H; [discriminate H|].
       destruct (IH _ _ _ _ _ _ _ H El (zero_ok_tail _ _ Hz)) as (m' & -> & Hm'); [lia | lia |].
       exists m'. split; [reflexivity|]. intros x. rewrite Hm'. cbn [overlay vl_start vl_bytes length].
       replace ((align4 a <=? x) && (x <? align4 a + Z.of_nat 0)) with false by lia. reflexivity.
@@ -1169,9 +1179,9 @@ Qed.
 
 (** ** 5. the layout theorem *)
 Lemma layout_lem : forall data m a vars ms' vars',
-  write_data data (MFlat m) a vars = POk (ms', vars') -> zero_ok data -> 16384 <= a ->
-  exists L e,
-    lay data a = Some (L, e) /\
+  write_data data (MFlat m) a vars = POk (ms', vars') -> zero_ok data -> 16384 <= a <= 2 ^ 32 ->
+  exists L e m',
+    lay data a = Some (L, e) /\ e <= 2 ^ 32 /\ ms' = MFlat m' /\
     (* the variable table: one entry per declaration, in order, after the existing ones *)
     vars' = vars ++ table L /\
     (forall k y, var_lookup vars k = Some y -> var_lookup vars' k = Some y) /\
@@ -1179,21 +1189,21 @@ Lemma layout_lem : forall data m a vars ms' vars',
     (* placement: first at align4 a, each next one at align4 of the end of its predecessor *)
     chain a L e /\ Forall (placed a e) L /\
     Forall2 (fun d v => decl_image (snd d) = Some (vl_name v, vl_esize v, vl_bytes v, vl_extent v)) data L /\
-    (* contents, as long as the data segment ends at or below 2^32 *)
-    (e <= 2 ^ 32 ->
-     exists m', ms' = MFlat m' /\
-       (forall x, mget m' x = overlay L (mget m) x) /\
-       (forall v x, In v L -> in_var v x -> mget m' x = nth (Z.to_nat (x - vl_start v)) (vl_bytes v) 0) /\
-       (forall x, (forall v, In v L -> ~ in_var v x) -> mget m' x = mget m x)).
+    (* contents: every variable holds its bytes (later declarations never overwrite earlier ones),
+       every other cell is unchanged *)
+    (forall x, mget m' x = overlay L (mget m) x) /\
+    (forall v x, In v L -> in_var v x -> mget m' x = nth (Z.to_nat (x - vl_start v)) (vl_bytes v) 0) /\
+    (forall x, (forall v, In v L -> ~ in_var v x) -> mget m' x = mget m x).
 Proof.
-  intros data m a vars ms' vars' H Hz Ha.
-  destruct (write_data_lay _ _ _ _ _ _ H) as (L & e & HL & (T1 & T2 & T3)).
+  intros data m a vars ms' vars' H Hz Ha. change (2 ^ 32) with 4294967296 in *.
+  destruct (write_data_lay _ _ _ _ _ _ H) as (L & e & HL & (T1 & T2 & T3) & He).
+  specialize (He (proj2 Ha)).
   destruct (lay_props _ _ _ _ HL Hz) as (C & _ & HF & H2).
-  exists L, e. split; [exact HL|]. split; [exact T1|]. split; [exact T2|]. split; [exact T3|].
+  destruct (write_data_flat _ _ _ _ _ _ _ _ H HL Hz (proj1 Ha) He) as (m' & -> & Hm').
+  exists L, e, m'. split; [exact HL|]. split; [exact He|]. split; [reflexivity|].
+  split; [exact T1|]. split; [exact T2|]. split; [exact T3|].
   split; [exact C|]. split; [exact HF|]. split; [exact H2|].
-  intros He. change (2 ^ 32) with 4294967296 in He.
-  destruct (write_data_flat _ _ _ _ _ _ _ _ H HL Hz Ha He) as (m' & -> & Hm').
-  exists m'. split; [reflexivity|]. split; [exact Hm'|]. split.
+  split; [exact Hm'|]. split.
   - intros v x Hv Hx. rewrite Hm'. eapply image_in; eassumption.
   - intros x Hx. rewrite Hm'. apply image_out. exact Hx.
 Qed.
@@ -1283,17 +1293,18 @@ Proof.
       assert (G : forall nbits stride,
         match write_vals (MCache d) nbits stride (align4 a) vals ln with
         | PErr e => PErr e
-        | POk (m', a') => write_data t m' a' (vars ++ [(name, (align4 a, stride))])
+        | POk (m', a') => if a' >? data_limit then PErr (PMemSize (data_limit / 4)) else write_data t m' a' (vars ++ [(name, (align4 a, stride))])
         end =
         lift_lower d
           match write_vals (MFlat (lower d)) nbits stride (align4 a) vals ln with
           | PErr e => PErr e
-          | POk (m', a') => write_data t m' a' (vars ++ [(name, (align4 a, stride))])
+          | POk (m', a') => if a' >? data_limit then PErr (PMemSize (data_limit / 4)) else write_data t m' a' (vars ++ [(name, (align4 a, stride))])
           end).
       2: { destruct (ty =? 0); [|destruct (ty =? 1)]; apply G. }
       intros nbits stride. rewrite write_vals_cache.
       destruct (write_vals (MFlat (lower d)) nbits stride (align4 a) vals ln) as [[m1 a1]|e] eqn:Ew; [|reflexivity].
-      cbn [lift_lower]. rewrite IH. cbn [lower upd_lower]. rewrite lift_lower_upd.
+      cbn [lift_lower]. destruct (a1 >? data_limit); [reflexivity|].
+      rewrite IH. cbn [lower upd_lower]. rewrite lift_lower_upd.
       rewrite (write_vals_flat_shape _ _ _ _ _ _ _ _ Ew) at 2. reflexivity.
     + destruct (var_lookup vars name); [reflexivity|]. rewrite write_chars_cache.
       destruct (write_chars (MFlat (lower d)) (align4 a) (strip_quotes s)) as [[m1 a1]|e] eqn:Ew; [|reflexivity].
@@ -1301,9 +1312,11 @@ Proof.
       rewrite dwrite_flat_eq, dwrite_cache_eq. cbn [lower upd_lower].
       destruct (mem_write rv_memcfg (ms_lower m1) 8 a1 0) as [m2 [e|]]; cbn [dres].
       * destruct e; reflexivity.
-      * rewrite IH. cbn [lower upd_lower]. rewrite !lift_lower_upd. reflexivity.
+      * destruct (a1 + 1 >? data_limit); [reflexivity|].
+        rewrite IH. cbn [lower upd_lower]. rewrite !lift_lower_upd. reflexivity.
     + destruct (var_lookup vars name); [reflexivity|].
-      destruct (py_int10 v) as [n|]; [|reflexivity]. apply IH.
+      destruct (py_int10 v) as [n|]; [|reflexivity].
+      destruct (align4 a + 4 * n >? data_limit); [reflexivity | apply IH].
 Qed.
 
 (** * 7. Segment order *)
@@ -1398,24 +1411,26 @@ Proof.
       assert (G : forall nbits stride, same_outcome
         match write_vals m nbits stride (align4 a) vals ln with
         | PErr e => PErr e
-        | POk (m', a') => write_data t m' a' (vars ++ [(name, (align4 a, stride))])
+        | POk (m', a') => if a' >? data_limit then PErr (PMemSize (data_limit / 4)) else write_data t m' a' (vars ++ [(name, (align4 a, stride))])
         end
         match write_vals m nbits stride (align4 a) vals ln' with
         | PErr e => PErr e
-        | POk (m', a') => write_data t' m' a' (vars ++ [(name, (align4 a, stride))])
+        | POk (m', a') => if a' >? data_limit then PErr (PMemSize (data_limit / 4)) else write_data t' m' a' (vars ++ [(name, (align4 a, stride))])
         end).
       2: { destruct (ty =? 0); [|destruct (ty =? 1)]; apply G. }
       intros nbits stride. pose proof (write_vals_erase nbits stride ln ln' vals m (align4 a)) as R.
       unfold same_outcome in R.
       destruct (write_vals m nbits stride (align4 a) vals ln) as [[m1 a1]|e1],
                (write_vals m nbits stride (align4 a) vals ln') as [[m1' a1']|e1']; cbn in R; try contradiction.
-      * injection R as <- <-. apply IH; exact Ht.
+      * injection R as <- <-. destruct (a1 >? data_limit); [reflexivity | apply IH; exact Ht].
       * exact R.
     + destruct (var_lookup vars name); [reflexivity|].
       destruct (write_chars m (align4 a) (strip_quotes s)) as [[m1 a1]|e]; [|reflexivity].
-      destruct (dwrite m1 8 a1 0) as [m2|e]; [|reflexivity]. apply IH; exact Ht.
+      destruct (dwrite m1 8 a1 0) as [m2|e]; [|reflexivity].
+      destruct (a1 + 1 >? data_limit); [reflexivity | apply IH; exact Ht].
     + destruct (var_lookup vars name); [reflexivity|].
-      destruct (py_int10 v) as [n|]; [|reflexivity]. apply IH; exact Ht.
+      destruct (py_int10 v) as [n|]; [|reflexivity].
+      destruct (align4 a + 4 * n >? data_limit); [reflexivity | apply IH; exact Ht].
 Qed.
 
 (** ** in-line labels and expansion under renumbering *)
